@@ -3,6 +3,7 @@ package eval
 import (
 	"fmt"
 	"slices"
+	"strings"
 	"ti/base"
 	"ti/context"
 	"ti/parser"
@@ -73,6 +74,15 @@ func (c *Class) classIdentifierProcessing(
 		if nextT.IsTargetIdentifier("private") {
 			methodT := base.GetMethodT("Builtin", "", "private", false)
 			if methodT != nil {
+				isHandled, err := evalPrivateWithArguments(e, p, *ctx)
+				if err != nil {
+					p.Fatal(*ctx, err)
+				}
+
+				if isHandled {
+					continue
+				}
+
 				ctx.StartPrivate()
 				defer ctx.EndPrivate()
 			}
@@ -104,6 +114,50 @@ func (c *Class) classIdentifierProcessing(
 	}
 
 	return nil
+}
+
+// `private def m ... end` and `private :m, :n` concern the named methods only: they
+// open no private section
+func evalPrivateWithArguments(
+	e *Evaluator,
+	p *parser.Parser,
+	ctx context.Context,
+) (bool, error) {
+
+	nextT, err := p.Read()
+	if err != nil {
+		return false, err
+	}
+
+	if nextT == nil || nextT.IsNewLineIdentifier() {
+		p.Unget()
+		return false, nil
+	}
+
+	if nextT.IsTargetIdentifier("def") {
+		ctx.StartPrivate()
+
+		return true, e.Eval(p, ctx, nextT)
+	}
+
+	for nextT != nil && !nextT.IsNewLineIdentifier() {
+		if nextT.IsSymbolType() {
+			base.MakeMethodPrivate(
+				ctx.GetFrame(),
+				ctx.GetClass(),
+				strings.TrimPrefix(nextT.ToString(), ":"),
+			)
+		}
+
+		nextT, err = p.Read()
+		if err != nil {
+			return true, err
+		}
+	}
+
+	p.Unget()
+
+	return true, nil
 }
 
 func (c *Class) getNextFrame(ctx context.Context) string {
@@ -234,6 +288,15 @@ func (c *Class) Evaluation(
 		if nextT.IsTargetIdentifier("private") {
 			methodT := base.GetMethodT("Builtin", "", "private", false)
 			if methodT != nil {
+				isHandled, err := evalPrivateWithArguments(e, p, ctx)
+				if err != nil {
+					p.Fatal(ctx, err)
+				}
+
+				if isHandled {
+					continue
+				}
+
 				ctx.StartPrivate()
 				defer ctx.EndPrivate()
 			}
